@@ -592,7 +592,7 @@ class Flat:
                     out.append(self.flat(arms[0][1], ctx))
                     continue
                 i = len(self.alts)
-                self.alts.append((i, [a[0] for a in arms], ctx))
+                self.alts.append((i, [a[0] for a in arms], ctx, [a[2] if len(a) > 2 else [] for a in arms]))
                 out.append('ALT%d{ %s }' % (i, ' || '.join(self.flat(a[1], ctx + '/alt%d.%d' % (i, j)) for j, a in enumerate(arms))))
             elif k == 'call':
                 out.append(self.flat(n[3], ctx + '/' + short(n[1])))
